@@ -1,6 +1,1066 @@
-//! C35 — not implemented yet.
+//! C35 — The SQL front door decides and encodes consistently.
+//!
+//! A case is a node lifecycle history: how node 0's table loader behaves
+//! (immediate / sleepy / gated by the check / failing), which peers it is told
+//! about (up, down = an address nobody listens on, never-probed, up but never
+//! loaded, up and later killed without a re-probe), and three request phases
+//! (`pre`: while the loader is still held back; `main`: after load and one
+//! probe round; `after`: after a peer was killed behind the prober's back).
+//! Every request names a statement (scatter-able / gather-only / nothing to
+//! distribute / invalid), a mode (auto, 1, 0) and a format (arrow, json, csv).
+//!
+//! Oracle (decision table from server.rs' documented contract), evaluated
+//! against the membership view the node itself reports before and after the
+//! request (a changed view discards the case — no wall-clock assumptions):
+//!  * before the load finishes `/sql` and `/fragment` answer 503 ("still
+//!    loading"), `/readyz` 503, `/healthz` 200; a failed load answers 503
+//!    forever and the explanation carries the loader's own message;
+//!  * `distributed=0` answers locally; auto distributes iff >= 2 members are
+//!    up and `plan_distributed` accepts the statement, otherwise answers
+//!    locally with `x-qe-distributed: false` and a non-empty
+//!    `x-qe-distributed-skipped`;
+//!  * `distributed=1` never yields 200 with `x-qe-distributed: false`; when a
+//!    member the node believes up cannot do its share, the only acceptable 200
+//!    is a distributed one with the right rows — never a local fallback;
+//!  * a local answer's Arrow / JSON / CSV body decodes (arrow IPC reader,
+//!    serde_json, csv crate) to exactly the rows `ctx.sql` returns on one node
+//!    over the same files; a distributed JSON/CSV body decodes to the rows of
+//!    the same request's Arrow body; `x-qe-rows` = rows in the body.
+#[path = "c34_util.rs"]
+mod util;
+
 use super::Property;
+use crate::data::{self, batches_to_rows, multiset_eq, rows_eq, Rows, TempDir, Value};
+use crate::engine::block_on;
+use crate::runner::*;
+use arrow::datatypes::DataType;
+use proptest::prelude::*;
+use query_engine::distributed::{HttpResponse, ServerHandle};
+use query_engine::error::QueryError;
+use serde::{Deserialize, Serialize};
+use serde_json::Value as J;
+use util::*;
+
+#[derive(Clone, Copy, Debug, Serialize, Deserialize, PartialEq, Eq)]
+pub enum Mode {
+    Auto,
+    Force,
+    Off,
+}
+#[derive(Clone, Copy, Debug, Serialize, Deserialize, PartialEq, Eq)]
+pub enum Format {
+    Arrow,
+    Json,
+    Csv,
+}
+#[derive(Clone, Copy, Debug, Serialize, Deserialize, PartialEq, Eq)]
+pub enum Loader {
+    Immediate,
+    /// sleeps this many ms before loading; requests race it
+    Sleepy(u16),
+    /// held back until the check has made its `pre` requests
+    Gated,
+    Fails,
+    GatedFails,
+}
+#[derive(Clone, Copy, Debug, Serialize, Deserialize, PartialEq, Eq)]
+pub enum Peer {
+    Up,
+    /// an address nobody listens on
+    Down,
+    /// listed as a member but never probed
+    Unknown,
+    /// answers /healthz (so it is seen up) but its tables never load
+    UpNotLoaded,
+    /// up for the `main` phase, shut down before the `after` phase while node 0 still believes it up
+    UpThenKilled,
+}
+
+#[derive(Clone, Debug, Serialize, Deserialize)]
+pub struct Req {
+    pub sql: String,
+    pub kind: String,
+    pub total_order: bool,
+    pub mode: Mode,
+    /// value of `?distributed=`; None = absent
+    pub mode_text: Option<String>,
+    pub format: Format,
+    /// value of `?format=`; None = absent (arrow)
+    pub format_text: Option<String>,
+}
+
+#[derive(Clone, Debug, Serialize, Deserialize)]
+pub struct C35Case {
+    pub spec: TableSpec,
+    pub dim_rows: u8,
+    pub loader: Loader,
+    pub peers: Vec<Peer>,
+    pub pre: Vec<Req>,
+    pub pre_fragment: bool,
+    pub main: Vec<Req>,
+    pub main_fragment: bool,
+    pub after: Vec<Req>,
+}
+
+// ---------------------------------------------------------------------------
+// generator
+// ---------------------------------------------------------------------------
+
+fn render(tpl: u8, a: usize, b: usize) -> (String, &'static str, bool) {
+    match tpl {
+        // ---- exactly-mergeable shapes (concat / top-n / two-phase)
+        0 => (format!("SELECT id, k, v, s, dt FROM t WHERE id < {a}"), "concat", false),
+        1 => (format!("SELECT id, s FROM t WHERE id >= {a} ORDER BY id"), "sorted", true),
+        2 => (format!("SELECT id, v FROM t ORDER BY id DESC LIMIT {}", a % 50), "topn", true),
+        3 => ("SELECT k, COUNT(*) AS c, SUM(v) AS sv, MIN(id) AS lo, MAX(s) AS hs FROM t GROUP BY k".into(), "group_agg", false),
+        4 => (format!("SELECT COUNT(*) AS c, SUM(id) AS si, MIN(dt) AS ld, MAX(s) AS hs FROM t WHERE id <= {a}"), "global_agg", true),
+        5 => (format!("SELECT k, AVG(v) AS av, COUNT(v) AS cv FROM t WHERE id < {a} GROUP BY k ORDER BY k"), "group_avg_sorted", true),
+        6 => ("SELECT d.name AS dn, COUNT(*) AS c FROM t JOIN d ON t.k = d.k GROUP BY d.name".into(), "join_dim_agg", false),
+        7 => (format!("SELECT id, UPPER(s) AS u, v * 2 AS w, dt FROM t WHERE k = {} AND id < {a}", b % 4), "concat_exprs", false),
+        // ---- gather-only shapes
+        8 => ("SELECT DISTINCT k FROM t ORDER BY k".into(), "distinct", true),
+        9 => ("SELECT COUNT(DISTINCT k) AS n FROM t".into(), "count_distinct", true),
+        10 => (format!("WITH x AS (SELECT id, k FROM t WHERE id < {a}) SELECT k, COUNT(*) AS c FROM x GROUP BY k"), "cte_agg", false),
+        11 => (format!("SELECT id AS x FROM t WHERE id < {a} UNION ALL SELECT k AS x FROM d"), "union_all", false),
+        12 => (format!("SELECT id, ROW_NUMBER() OVER (ORDER BY id) AS rn FROM t WHERE id < {a} ORDER BY id"), "window", true),
+        13 => (format!("SELECT x.id AS xid, y.k AS yk FROM t x JOIN t y ON x.id = y.id WHERE x.id < {a} ORDER BY x.id"), "self_join", true),
+        // ---- nothing to distribute
+        14 => ("SELECT 1 AS one".into(), "no_table", true),
+        // ---- invalid
+        15 => (["SELEC 1", "SELECT id FROM t WHERE", "SELECT (id FROM t"][a % 3].into(), "err_parse", true),
+        16 => ("SELECT * FROM nope".into(), "err_table", true),
+        17 => ("SELECT nope FROM t".into(), "err_column", true),
+        18 => (["DROP TABLE t", "INSERT INTO t VALUES (1)"][a % 2].into(), "err_not_select", true),
+        _ => ("SELECT CAST(s AS BIGINT) AS x FROM t WHERE s IS NOT NULL".into(), "err_runtime", false),
+    }
+}
+
+fn req_strategy(rows: usize) -> impl Strategy<Value = Req> {
+    let tpl = prop_oneof![8 => 0u8..8, 4 => 8u8..14, 1 => Just(14u8), 3 => 15u8..20];
+    let mode = prop_oneof![4 => Just(Mode::Auto), 3 => Just(Mode::Force), 2 => Just(Mode::Off)];
+    let format = prop_oneof![Just(Format::Arrow), Just(Format::Json), Just(Format::Csv)];
+    (tpl, any::<u16>(), any::<u16>(), mode, format, any::<u8>()).prop_map(move |(tpl, fa, fb, mode, format, sp)| {
+        let a = if fa & 1 == 0 { rows + 1 - data::pick_idx(fa, rows / 4 + 1) } else { data::pick_idx(fa, rows + 2) };
+        let (sql, kind, total_order) = render(tpl, a, fb as usize);
+        let mode_text = match mode {
+            Mode::Auto => [None, Some("auto")][sp as usize % 2],
+            Mode::Force => [Some("1"), Some("true"), Some("force"), Some("yes")][sp as usize % 4],
+            Mode::Off => [Some("0"), Some("false"), Some("local"), Some("no")][sp as usize % 4],
+        }
+        .map(String::from);
+        let format_text = match format {
+            Format::Arrow => [None, Some("arrow"), Some("ipc")][(sp / 4) as usize % 3],
+            Format::Json => Some("json"),
+            Format::Csv => Some("csv"),
+        }
+        .map(String::from);
+        Req { sql, kind: kind.to_string(), total_order, mode, mode_text, format, format_text }
+    })
+}
+
+fn case_strategy(_tier: Tier) -> BoxedStrategy<C35Case> {
+    let rows = prop_oneof![1 => Just(0usize), 4 => 1usize..40, 10 => 40usize..400];
+    let spec = (
+        rows,
+        1u32..6,
+        prop_oneof![Just(0u32), Just(2), Just(5)],
+        0u16..24,
+        prop_oneof![3 => Just((0u32, 0u32)), 1 => (7u32..50, 100u32..3000)],
+        any::<u32>(),
+        prop_oneof![Just(8usize), Just(64), Just(1 << 20)],
+        1u8..4,
+        prop::bool::weighted(0.9),
+    )
+        .prop_map(|(rows, kmod, null_every, str_width, (wide_every, wide_len), salt, rg_size, files, k_not_null)| TableSpec {
+            rows,
+            kmod,
+            null_every,
+            str_width,
+            wide_every,
+            wide_len,
+            salt,
+            rg_size,
+            files,
+            k_not_null,
+        });
+    let loader = prop_oneof![
+        2 => Just(Loader::Immediate),
+        2 => (0u16..40).prop_map(Loader::Sleepy),
+        7 => Just(Loader::Gated),
+        1 => Just(Loader::Fails),
+        1 => Just(Loader::GatedFails),
+    ];
+    let any_peer = prop_oneof![
+        6 => Just(Peer::Up),
+        2 => Just(Peer::Down),
+        2 => Just(Peer::Unknown),
+        1 => Just(Peer::UpNotLoaded),
+        3 => Just(Peer::UpThenKilled),
+    ];
+    let peers = prop_oneof![
+        1 => Just(vec![]),
+        3 => any_peer.clone().prop_map(|p| vec![p]),
+        4 => (any_peer.clone(), any_peer.clone()).prop_map(|(p, q)| vec![p, q]),
+        3 => any_peer.prop_map(|p| vec![Peer::Up, p]),
+    ];
+    (spec, 0u8..6, loader, peers, any::<bool>(), any::<bool>())
+        .prop_flat_map(|(spec, dim_rows, loader, peers, pre_fragment, main_fragment)| {
+            let rows = spec.rows;
+            (
+                Just(spec),
+                Just(dim_rows),
+                Just(loader),
+                Just(peers),
+                proptest::collection::vec(req_strategy(rows), 1..3),
+                Just(pre_fragment),
+                proptest::collection::vec(req_strategy(rows), 1..6),
+                Just(main_fragment),
+                proptest::collection::vec(req_strategy(rows), 1..4),
+            )
+        })
+        .prop_map(|(spec, dim_rows, loader, peers, pre, pre_fragment, main, main_fragment, after)| C35Case {
+            spec,
+            dim_rows,
+            loader,
+            peers,
+            pre,
+            pre_fragment,
+            main,
+            main_fragment,
+            after,
+        })
+        .boxed()
+}
+
+// ---------------------------------------------------------------------------
+// decoding the three body formats
+// ---------------------------------------------------------------------------
+
+type Sig = Vec<(String, DataType)>;
+
+fn parse_date(s: &str) -> Option<i32> {
+    let d = chrono::NaiveDate::parse_from_str(s, "%Y-%m-%d").ok()?;
+    Some((d - chrono::NaiveDate::from_ymd_opt(1970, 1, 1)?).num_days() as i32)
+}
+
+fn json_cell(v: &J, t: &DataType) -> Result<Value, String> {
+    if v.is_null() {
+        return Ok(Value::Null);
+    }
+    let bad = || format!("JSON value {v} does not encode a {t:?}");
+    Ok(match t {
+        DataType::Int8 | DataType::Int16 | DataType::Int32 | DataType::Int64 | DataType::UInt8 | DataType::UInt16 | DataType::UInt32 | DataType::UInt64 => {
+            Value::Int(v.as_i64().ok_or_else(bad)?)
+        }
+        DataType::Float32 | DataType::Float64 => Value::Double(v.as_f64().ok_or_else(bad)?),
+        DataType::Utf8 | DataType::LargeUtf8 | DataType::Utf8View => Value::Str(v.as_str().ok_or_else(bad)?.to_string()),
+        DataType::Boolean => Value::Bool(v.as_bool().ok_or_else(bad)?),
+        DataType::Date32 => Value::Date(v.as_str().and_then(parse_date).ok_or_else(bad)?),
+        other => return Err(format!("UNSUPPORTED column type {other:?}")),
+    })
+}
+
+fn csv_cell(s: &str, t: &DataType) -> Result<Value, String> {
+    // the Arrow CSV writer renders NULL as the empty field
+    if s.is_empty() {
+        return Ok(Value::Null);
+    }
+    let bad = || format!("CSV field {s:?} does not encode a {t:?}");
+    Ok(match t {
+        DataType::Int8 | DataType::Int16 | DataType::Int32 | DataType::Int64 | DataType::UInt8 | DataType::UInt16 | DataType::UInt32 | DataType::UInt64 => {
+            Value::Int(s.parse::<i64>().map_err(|_| bad())?)
+        }
+        DataType::Float32 | DataType::Float64 => Value::Double(s.parse::<f64>().map_err(|_| bad())?),
+        DataType::Utf8 | DataType::LargeUtf8 | DataType::Utf8View => Value::Str(s.to_string()),
+        DataType::Boolean => Value::Bool(match s {
+            "true" => true,
+            "false" => false,
+            _ => return Err(bad()),
+        }),
+        DataType::Date32 => Value::Date(parse_date(s).ok_or_else(bad)?),
+        other => return Err(format!("UNSUPPORTED column type {other:?}")),
+    })
+}
+
+/// Decode a 200 body into rows, reading text formats against `sig`.
+fn decode_body(format: Format, body: &[u8], sig: &Sig) -> Result<Rows, String> {
+    match format {
+        Format::Arrow => {
+            let (schema, batches) = decode_ipc(body)?;
+            let got = schema_sig(&schema);
+            if &got != sig {
+                return Err(format!("Arrow body has schema [{}], expected [{}]", fmt_sig(&got), fmt_sig(sig)));
+            }
+            Ok(batches_to_rows(&batches))
+        }
+        Format::Json => {
+            let v: J = serde_json::from_slice(body).map_err(|e| format!("JSON body does not parse ({e}): {:?}", String::from_utf8_lossy(&body[..body.len().min(80)])))?;
+            let arr = v.as_array().ok_or_else(|| format!("JSON body is not an array: {}", &v.to_string()[..v.to_string().len().min(80)]))?;
+            let mut rows = vec![];
+            for o in arr {
+                let obj = o.as_object().ok_or_else(|| format!("JSON row is not an object: {o}"))?;
+                if let Some(extra) = obj.keys().find(|k| !sig.iter().any(|(n, _)| n == *k)) {
+                    return Err(format!("JSON row has a key {extra:?} that is no column of [{}]", fmt_sig(sig)));
+                }
+                let mut row = vec![];
+                for (n, t) in sig {
+                    // the Arrow JSON writer omits the key of a NULL value
+                    row.push(match obj.get(n) {
+                        None => Value::Null,
+                        Some(x) => json_cell(x, t)?,
+                    });
+                }
+                rows.push(row);
+            }
+            Ok(rows)
+        }
+        Format::Csv => {
+            if body.is_empty() {
+                return Ok(vec![]);
+            }
+            let mut rd = csv::ReaderBuilder::new().has_headers(true).flexible(true).from_reader(body);
+            let hdr: Vec<String> = rd.headers().map_err(|e| format!("CSV header does not parse: {e}"))?.iter().map(String::from).collect();
+            let want: Vec<String> = sig.iter().map(|(n, _)| n.clone()).collect();
+            if hdr != want {
+                return Err(format!("CSV header {hdr:?}, expected {want:?}"));
+            }
+            let mut rows = vec![];
+            for rec in rd.records() {
+                let rec = rec.map_err(|e| format!("CSV record does not parse: {e}"))?;
+                if rec.len() != sig.len() {
+                    return Err(format!("CSV record has {} fields, header has {}", rec.len(), sig.len()));
+                }
+                let mut row = vec![];
+                for (f, (_, t)) in rec.iter().zip(sig) {
+                    row.push(csv_cell(f, t)?);
+                }
+                rows.push(row);
+            }
+            Ok(rows)
+        }
+    }
+}
+
+/// CSV cannot tell NULL from the empty string: compare modulo that.
+fn csv_canon(rows: &Rows) -> Rows {
+    rows.iter()
+        .map(|r| r.iter().map(|v| if matches!(v, Value::Str(s) if s.is_empty()) { Value::Null } else { v.clone() }).collect())
+        .collect()
+}
+
+/// JSON has no NaN / infinity: the Arrow JSON writer renders them as null.
+fn json_canon(rows: &Rows) -> Rows {
+    rows.iter()
+        .map(|r| r.iter().map(|v| if matches!(v, Value::Double(d) if !d.is_finite()) { Value::Null } else { v.clone() }).collect())
+        .collect()
+}
+
+fn same_rows(want: &Rows, got: &Rows, ordered: bool, format: Format, tol: f64) -> bool {
+    let (w, g) = match format {
+        Format::Csv => (csv_canon(want), csv_canon(got)),
+        Format::Json => (json_canon(want), json_canon(got)),
+        Format::Arrow => (want.clone(), got.clone()),
+    };
+    if ordered {
+        rows_eq(&w, &g, tol)
+    } else {
+        multiset_eq(&w, &g, tol)
+    }
+}
+
+// ---------------------------------------------------------------------------
+// the check
+// ---------------------------------------------------------------------------
+
+#[derive(Default)]
+struct Report {
+    labels: Vec<String>,
+    window_observed: bool,
+    distributed_answer: bool,
+    known: Option<(String, String)>,
+}
+
+enum Stop {
+    Fail(String),
+    Discard(String),
+}
+
+struct PeerNode {
+    kind: Peer,
+    addr: String,
+    handle: Option<ServerHandle>,
+    gate: Option<std::sync::mpsc::Sender<()>>,
+    _dead: Option<DeadPort>,
+    /// alive and loaded right now (can do its share)
+    able: bool,
+}
+
+fn path_of(r: &Req) -> String {
+    let mut q = vec![];
+    if let Some(f) = &r.format_text {
+        q.push(format!("format={f}"));
+    }
+    if let Some(m) = &r.mode_text {
+        q.push(format!("distributed={m}"));
+    }
+    if q.is_empty() {
+        "/sql".into()
+    } else {
+        format!("/sql?{}", q.join("&"))
+    }
+}
+
+async fn post(addr: &str, path: &str, body: &str) -> Result<HttpResponse, Stop> {
+    match http_post(addr, path, body).await {
+        Ok(r) => Ok(r),
+        Err(e) if is_timeout(&e) => Err(Stop::Discard("http timeout".into())),
+        Err(e1) => match http_post(addr, path, body).await {
+            Ok(_) => Err(Stop::Discard(format!("transient http transport error: {e1}"))),
+            Err(e2) if is_timeout(&e2) => Err(Stop::Discard("http timeout".into())),
+            Err(e2) => Err(Stop::Fail(format!("POST {path} gets no HTTP response at all (twice): {e1}; {e2}"))),
+        },
+    }
+}
+async fn get(addr: &str, path: &str) -> Result<HttpResponse, Stop> {
+    match http_get(addr, path).await {
+        Ok(r) => Ok(r),
+        Err(e) if is_timeout(&e) => Err(Stop::Discard("http timeout".into())),
+        Err(e) => Err(Stop::Discard(format!("GET {path}: {e}"))),
+    }
+}
+
+fn fragment_body(local: &query_engine::ExecutionContext) -> Option<String> {
+    let set = query_engine::distributed::splits_of(local, "t", 1).ok()?;
+    Some(
+        serde_json::json!({
+            "sql": "SELECT id, s FROM t",
+            "table": "t",
+            "shard_index": 0,
+            "shard_count": 1,
+            "splits_digest": set.digest(),
+        })
+        .to_string(),
+    )
+}
+
+struct World<'a> {
+    n0: &'a ServerHandle,
+    addr: String,
+    local: &'a query_engine::ExecutionContext,
+    peers: &'a [PeerNode],
+}
+
+/// Judge one `/sql` response of a LOADED node 0 against the decision table.
+async fn judge_loaded(w: &World<'_>, r: &Req, resp: &HttpResponse, before: &[(String, String, bool)], rep: &mut Report) -> Result<(), Stop> {
+    let fail = |m: String| Err(Stop::Fail(m));
+    let up = up_count(before);
+    // can every member the node believes up do its share?
+    let healthy = before
+        .iter()
+        .filter(|(_, st, me)| !*me && st == "up")
+        .all(|(a, _, _)| w.peers.iter().any(|p| &p.addr == a && p.able));
+
+    let local = w.local.sql(&r.sql).await;
+    let plan = query_engine::distributed::plan_distributed(w.local, &r.sql);
+    let plan_class = match &plan {
+        Ok(p) => format!("{:?}", p.shape).to_lowercase(),
+        Err(QueryError::NotImplemented(_)) => "not_mergeable".to_string(),
+        Err(_) => "plan_error".to_string(),
+    };
+    rep.labels.push(format!("plan:{plan_class}"));
+    let expect_distributed = match r.mode {
+        Mode::Off => false,
+        Mode::Force => true,
+        Mode::Auto => up >= 2 && plan.is_ok(),
+    };
+    rep.labels.push(format!("expect:{}:up{}:{}", if expect_distributed { "distributed" } else { "local" }, up.min(3), if healthy { "healthy" } else { "broken_member" }));
+
+    let status = resp.status;
+    let dist_hdr = resp.header("x-qe-distributed");
+    if status != 200 {
+        rep.labels.push(format!("status:{status}:{}", r.kind));
+        if status == 503 {
+            return fail(format!("a loaded node answers 503: {}", error_text(resp)));
+        }
+        if !expect_distributed {
+            // local decision: the outcome is ctx.sql's
+            return match &local {
+                Ok(q) => fail(format!("the node must answer locally and `ctx.sql` succeeds ({} rows), but /sql fails with {status}: {}", q.row_count, error_text(resp))),
+                Err(_) => Ok(()),
+            };
+        }
+        // distributed decision
+        if !healthy {
+            rep.labels.push("fanout_failure_is_error".into());
+            return Ok(());
+        }
+        // A distributed execution that fails on a healthy cluster is an error,
+        // not a fallback: the property allows it (whether the distributed
+        // engine SHOULD have answered is C09's subject). Recorded for the report.
+        if local.is_ok() && r.kind != "no_table" {
+            rep.labels.push(format!("note:distributed_fails_on_healthy_cluster:{}:{:?}:up{}", r.kind, r.mode, up.min(3)).to_lowercase());
+            if std::env::var("C35_TRACE").is_ok() {
+                eprintln!("TRACE distributed fails on a healthy cluster `{}` mode {:?} up {up}: {status} {}", r.sql, r.mode, error_text(resp));
+            }
+        }
+        return Ok(());
+    }
+
+    // ---- 200
+    let distributed = match dist_hdr {
+        Some("true") => true,
+        Some("false") => false,
+        other => return fail(format!("200 with x-qe-distributed = {other:?}")),
+    };
+    rep.labels.push(format!("answer:{}", if distributed { "distributed" } else { "local" }));
+    if r.mode == Mode::Force && !distributed {
+        return fail("distributed=1 answered 200 with x-qe-distributed: false".into());
+    }
+    if r.mode == Mode::Off && distributed {
+        return fail("distributed=0 answered with x-qe-distributed: true".into());
+    }
+    if distributed != expect_distributed {
+        return fail(format!(
+            "auto mode with {up} member(s) up and plan_distributed {} must answer {}, but x-qe-distributed = {distributed} (skipped: {:?}){}",
+            match &plan {
+                Ok(p) => format!("accepting ({:?})", p.shape),
+                Err(e) => format!("refusing ({})", &e.to_string()[..e.to_string().len().min(90)]),
+            },
+            if expect_distributed { "distributed" } else { "locally" },
+            resp.header("x-qe-distributed-skipped"),
+            if !healthy && !distributed { " — a member believed up cannot do its share: this is a silent local fallback" } else { "" }
+        ));
+    }
+    if !distributed && resp.header("x-qe-distributed-skipped").map(|s| s.trim().is_empty()).unwrap_or(true) {
+        return fail("a local answer carries no reason in x-qe-distributed-skipped".into());
+    }
+    let xrows = resp.header("x-qe-rows").and_then(|v| v.parse::<usize>().ok());
+
+    if !distributed {
+        // exactly ctx.sql's rows
+        let q = match &local {
+            Ok(q) => q,
+            Err(e) => return fail(format!("the node answers 200 locally but `ctx.sql` over the same files fails: {e}")),
+        };
+        let sig = schema_sig(&q.batches.first().map(|b| b.schema()).unwrap_or_else(|| q.schema.clone()));
+        let want = batches_to_rows(&q.batches);
+        let got = match decode_body(r.format, &resp.body, &sig) {
+            Ok(g) => g,
+            Err(e) if e.starts_with("UNSUPPORTED") => return Err(Stop::Discard(e)),
+            Err(e) => return fail(format!("{:?} body does not decode to the engine's rows: {e}", r.format)),
+        };
+        let tol = if r.format == Format::Json { 1e-12 } else { 0.0 };
+        if !same_rows(&want, &got, r.total_order, r.format, tol) {
+            return fail(format!(
+                "{:?} body does not encode the rows `ctx.sql` returns ({} vs {} rows)\nctx.sql:\n{}body:\n{}",
+                r.format,
+                want.len(),
+                got.len(),
+                data::fmt_rows(&want, 6),
+                data::fmt_rows(&got, 6)
+            ));
+        }
+        if xrows != Some(got.len()) {
+            return fail(format!("x-qe-rows = {:?} but the body holds {} rows", resp.header("x-qe-rows"), got.len()));
+        }
+        rep.labels.push(format!("encoded:{:?}:local", r.format));
+        return Ok(());
+    }
+
+    // ---- distributed 200
+    rep.distributed_answer = true;
+    // the lossless Arrow rendering of the same request is the reference for the text formats
+    let (ref_sig, ref_rows) = if r.format == Format::Arrow {
+        let (schema, batches) = decode_ipc(&resp.body).map_err(|e| Stop::Fail(format!("Arrow body does not decode: {e}")))?;
+        (schema_sig(&schema), batches_to_rows(&batches))
+    } else {
+        let mut p = "/sql?format=arrow".to_string();
+        if let Some(m) = &r.mode_text {
+            p.push_str(&format!("&distributed={m}"));
+        }
+        let again = post(&w.addr, &p, &r.sql).await?;
+        if view(w.n0) != before {
+            return Err(Stop::Discard("membership view changed while the statement ran".into()));
+        }
+        if again.status != 200 || again.header("x-qe-distributed") != Some("true") {
+            return fail(format!(
+                "the same statement, mode and membership view answered 200/distributed as {:?} and then {} (x-qe-distributed {:?}) as arrow: {}",
+                r.format,
+                again.status,
+                again.header("x-qe-distributed"),
+                if again.status == 200 { String::new() } else { error_text(&again) }
+            ));
+        }
+        let (schema, batches) = decode_ipc(&again.body).map_err(|e| Stop::Fail(format!("Arrow body does not decode: {e}")))?;
+        let sig = schema_sig(&schema);
+        let want = batches_to_rows(&batches);
+        let got = match decode_body(r.format, &resp.body, &sig) {
+            Ok(g) => g,
+            Err(e) if e.starts_with("UNSUPPORTED") => return Err(Stop::Discard(e)),
+            Err(e) => return fail(format!("{:?} body of a distributed answer does not decode: {e}", r.format)),
+        };
+        if !same_rows(&want, &got, r.total_order, r.format, 1e-9) {
+            return fail(format!(
+                "{:?} body of a distributed answer does not encode the rows of its Arrow rendering ({} vs {} rows)\narrow:\n{}{:?}:\n{}",
+                r.format,
+                want.len(),
+                got.len(),
+                data::fmt_rows(&want, 6),
+                r.format,
+                data::fmt_rows(&got, 6)
+            ));
+        }
+        (sig, want)
+    };
+    if xrows != Some(ref_rows.len()) {
+        return fail(format!("x-qe-rows = {:?} but the body holds {} rows", resp.header("x-qe-rows"), ref_rows.len()));
+    }
+    rep.labels.push(format!("encoded:{:?}:distributed", r.format));
+    // not part of this property (C09's subject), recorded for the report only
+    if let Ok(q) = &local {
+        let want = batches_to_rows(&q.batches);
+        let lsig = schema_sig(&q.batches.first().map(|b| b.schema()).unwrap_or_else(|| q.schema.clone()));
+        if !same_rows(&want, &ref_rows, r.total_order, Format::Arrow, 1e-9) {
+            if !healthy {
+                return fail(format!(
+                    "a member believed up cannot do its share, yet the node answers 200 with rows that are not the full answer ({} rows, ctx.sql has {})",
+                    ref_rows.len(),
+                    want.len()
+                ));
+            }
+            rep.labels.push(format!("note:distributed_rows_differ_from_local:{}", r.kind));
+            if std::env::var("C35_TRACE").is_ok() {
+                let mut a = want.clone();
+                let mut b = ref_rows.clone();
+                data::canon_sort(&mut a);
+                data::canon_sort(&mut b);
+                let firstdiff = a.iter().zip(b.iter()).position(|(x, y)| x != y).unwrap_or(a.len().min(b.len()));
+                eprintln!(
+                    "TRACE distributed!=local `{}` mode {:?} up {up}: local {} rows, distributed {} rows; first difference at sorted index {firstdiff}:\n local: {:?}\n dist:  {:?}\n x-qe-distribution: {:?}",
+                    r.sql,
+                    r.mode,
+                    a.len(),
+                    b.len(),
+                    a.get(firstdiff),
+                    b.get(firstdiff),
+                    resp.header("x-qe-distribution").map(|s| &s[..s.len().min(700)])
+                );
+            }
+        } else if lsig != ref_sig {
+            rep.labels.push(format!("note:distributed_schema_differs_from_local:{}", r.kind));
+        }
+    }
+    Ok(())
+}
+
+async fn request_loaded(w: &World<'_>, r: &Req, rep: &mut Report, phase: &str) -> Result<(), Stop> {
+    rep.labels.push(format!("{phase}:{}:{:?}:{:?}", r.kind, r.mode, r.format).to_lowercase());
+    let before = view(w.n0);
+    let resp = post(&w.addr, &path_of(r), &r.sql).await?;
+    if view(w.n0) != before {
+        return Err(Stop::Discard("membership view changed while the statement ran".into()));
+    }
+    judge_loaded(w, r, &resp, &before, rep).await.map_err(|e| match e {
+        Stop::Fail(m) => Stop::Fail(format!(
+            "[{phase}] POST {} `{}`\nnode 0 view: {}\n{m}",
+            path_of(r),
+            r.sql,
+            before.iter().map(|(a, s, me)| format!("{a}={}{}", s, if *me { "(self)" } else { "" })).collect::<Vec<_>>().join(" ")
+        )),
+        d => d,
+    })
+}
+
+async fn fragment_loaded(w: &World<'_>, rep: &mut Report) -> Result<(), Stop> {
+    let Some(body) = fragment_body(w.local) else {
+        return Ok(());
+    };
+    let resp = match http_post_json(&w.addr, "/fragment", &body).await {
+        Ok(r) => r,
+        Err(e) => return Err(Stop::Discard(format!("fragment transport: {e}"))),
+    };
+    if resp.status != 200 {
+        return Err(Stop::Fail(format!("a loaded node refuses a well-formed /fragment (1 shard of 1, matching digest) with {}: {}", resp.status, error_text(&resp))));
+    }
+    let (_, batches) = decode_ipc(&resp.body).map_err(|e| Stop::Fail(format!("/fragment body: {e}")))?;
+    let got = batches_to_rows(&batches);
+    let want = match w.local.sql("SELECT id, s FROM t").await {
+        Ok(q) => batches_to_rows(&q.batches),
+        Err(e) => return Err(Stop::Discard(format!("local: {e}"))),
+    };
+    if !multiset_eq(&want, &got, 0.0) {
+        return Err(Stop::Fail(format!("/fragment (the only shard) returns {} rows, the table scan has {}", got.len(), want.len())));
+    }
+    rep.labels.push("fragment:ok".into());
+    Ok(())
+}
+
+async fn http_post_json(addr: &str, path: &str, body: &str) -> Result<HttpResponse, String> {
+    query_engine::distributed::http_client::post_json(addr, path, body.as_bytes(), OP_TIMEOUT).await.map_err(|e| e.to_string())
+}
+
+/// What a request may look like while the load has not been observed to finish.
+/// `must_refuse`: the loader is still held by the check, so 503 is the only
+/// acceptable answer; otherwise the request races the loader and may also get
+/// the loaded node's answer.
+async fn request_unloaded(w: &World<'_>, r: &Req, rep: &mut Report, must_refuse: bool, failing: bool) -> Result<(), Stop> {
+    rep.labels.push(format!("pre:{}:{:?}:{:?}", r.kind, r.mode, r.format).to_lowercase());
+    let before = view(w.n0);
+    let resp = post(&w.addr, &path_of(r), &r.sql).await?;
+    let ctx = format!("[before the load finished] POST {} `{}`", path_of(r), r.sql);
+    if resp.status == 503 {
+        rep.window_observed = true;
+        rep.labels.push("pre:503".into());
+        let text = error_text(&resp);
+        if !(text.contains("still loading") || (failing && text.contains("failed to load"))) {
+            return Err(Stop::Fail(format!("{ctx}\n503 without the documented explanation: {text:?}")));
+        }
+        return Ok(());
+    }
+    if must_refuse || failing {
+        return Err(Stop::Fail(format!(
+            "{ctx}\nthe table load has not finished (the loader is {}), yet /sql answers {} (x-qe-rows {:?}, {} body bytes) instead of 503",
+            if failing { "failing" } else { "still held back" },
+            resp.status,
+            resp.header("x-qe-rows"),
+            resp.body.len()
+        )));
+    }
+    rep.labels.push("pre:raced_loaded".into());
+    judge_loaded(w, r, &resp, &before, rep).await.map_err(|e| match e {
+        Stop::Fail(m) => Stop::Fail(format!("{ctx}\n{m}")),
+        d => d,
+    })
+}
+
+async fn fragment_unloaded(w: &World<'_>, rep: &mut Report, must_refuse: bool, failing: bool) -> Result<(), Stop> {
+    let body = fragment_body(w.local).unwrap_or_else(|| "{}".into());
+    let resp = match http_post_json(&w.addr, "/fragment", &body).await {
+        Ok(r) => r,
+        Err(e) => return Err(Stop::Discard(format!("fragment transport: {e}"))),
+    };
+    if resp.status == 503 {
+        rep.window_observed = true;
+        rep.labels.push("pre:fragment503".into());
+        return Ok(());
+    }
+    if must_refuse || failing {
+        return Err(Stop::Fail(format!(
+            "[before the load finished] POST /fragment answers {} instead of 503: {}",
+            resp.status,
+            String::from_utf8_lossy(&resp.body[..resp.body.len().min(160)])
+        )));
+    }
+    Ok(())
+}
+
+async fn run_case(c: &C35Case, rep: &mut Report) -> Result<(), Stop> {
+    let tmp = TempDir::new("c35");
+    let t = gen_table("t", &c.spec);
+    let d = gen_dim("d", c.dim_rows as usize);
+    let dirs = vec![
+        ("t".to_string(), write_table(tmp.path(), &t, c.spec.rg_size, c.spec.files)),
+        ("d".to_string(), write_table(tmp.path(), &d, 1 << 20, 1)),
+    ];
+    let local = local_ctx(&dirs).map_err(|e| Stop::Discard(format!("local context: {e}")))?;
+
+    // ---- peers
+    let mut peers: Vec<PeerNode> = vec![];
+    let mut spawn_err = None;
+    for (i, k) in c.peers.iter().take(2).enumerate() {
+        let node = match k {
+            Peer::Up | Peer::UpThenKilled => spawn_node(i as u64 + 1, ok_loader(dirs.clone())).await.map(|h| PeerNode {
+                kind: *k,
+                addr: h.address().to_string(),
+                handle: Some(h),
+                gate: None,
+                _dead: None,
+                able: true,
+            }),
+            Peer::UpNotLoaded => {
+                let (loader, gate) = staged_loader(dirs.clone(), true, 0, None);
+                spawn_node(i as u64 + 1, loader).await.map(|h| PeerNode {
+                    kind: *k,
+                    addr: h.address().to_string(),
+                    handle: Some(h),
+                    gate: Some(gate),
+                    _dead: None,
+                    able: false,
+                })
+            }
+            Peer::Down | Peer::Unknown => dead_port().map(|dp| PeerNode { kind: *k, addr: dp.addr.clone(), handle: None, gate: None, _dead: Some(dp), able: false }),
+        };
+        match node {
+            Ok(n) => peers.push(n),
+            Err(e) => {
+                spawn_err = Some(e);
+                break;
+            }
+        }
+    }
+    // ---- node 0
+    let failure_text = format!("c35 loader refuses to load (salt {})", c.spec.salt);
+    let (gated, sleep_ms, fail) = match c.loader {
+        Loader::Immediate => (false, 0, None),
+        Loader::Sleepy(ms) => (false, ms as u64, None),
+        Loader::Gated => (true, 0, None),
+        Loader::Fails => (false, 0, Some(failure_text.clone())),
+        Loader::GatedFails => (true, 0, Some(failure_text.clone())),
+    };
+    let mut n0 = None;
+    let mut gate0 = None;
+    if spawn_err.is_none() {
+        let (loader, gate) = staged_loader(dirs.clone(), gated, sleep_ms, fail);
+        match spawn_node(0, loader).await {
+            Ok(h) => {
+                n0 = Some(h);
+                gate0 = Some(gate);
+            }
+            Err(e) => spawn_err = Some(e),
+        }
+    }
+    let result = match (&n0, spawn_err) {
+        (Some(h), None) => drive(c, rep, h, &mut gate0, &mut peers, &local, &failure_text).await,
+        (_, e) => Err(Stop::Discard(format!("spawn: {}", e.unwrap_or_default()))),
+    };
+    // ---- teardown: release every held loader, stop every node
+    drop(gate0);
+    let mut handles = vec![];
+    for p in peers.iter_mut() {
+        p.gate.take();
+        if let Some(h) = p.handle.take() {
+            handles.push(h);
+        }
+    }
+    if let Some(h) = n0 {
+        handles.push(h);
+    }
+    shutdown_all(handles).await;
+    drop(peers);
+    drop(tmp);
+    result
+}
+
+async fn drive(
+    c: &C35Case,
+    rep: &mut Report,
+    n0: &ServerHandle,
+    gate0: &mut Option<std::sync::mpsc::Sender<()>>,
+    peers: &mut Vec<PeerNode>,
+    local: &query_engine::ExecutionContext,
+    failure_text: &str,
+) -> Result<(), Stop> {
+    let addr = n0.local_addr().to_string();
+    rep.labels.push(format!("loader:{:?}", c.loader).split('(').next().unwrap().to_string());
+    for p in peers.iter() {
+        rep.labels.push(format!("peer:{:?}", p.kind));
+    }
+    if peers.is_empty() {
+        rep.labels.push("peer:none".into());
+    }
+    let gated = matches!(c.loader, Loader::Gated | Loader::GatedFails);
+    let failing = matches!(c.loader, Loader::Fails | Loader::GatedFails);
+
+    // ---- phase `pre`: the load has not been observed to finish
+    {
+        let w = World { n0, addr: addr.clone(), local, peers: peers.as_slice() };
+        if gated {
+            let h = get(&addr, "/healthz").await?;
+            if h.status != 200 {
+                return Err(Stop::Fail(format!("/healthz answers {} while the tables load", h.status)));
+            }
+            let r = get(&addr, "/readyz").await?;
+            let body: J = serde_json::from_slice(&r.body).unwrap_or(J::Null);
+            if r.status != 503 || body["ready"] != J::Bool(false) || body["tables_loaded"] != J::Bool(false) {
+                return Err(Stop::Fail(format!("/readyz before the load finished: {} {}", r.status, r.text())));
+            }
+        }
+        for r in &c.pre {
+            request_unloaded(&w, r, rep, gated, failing).await?;
+        }
+        if c.pre_fragment {
+            fragment_unloaded(&w, rep, gated, failing).await?;
+        }
+    }
+    // ---- release the loader and wait for the outcome
+    if let Some(g) = gate0.take() {
+        let _ = g.send(());
+    }
+    let done = wait_until(|| n0.state().tables_loaded() || n0.state().load_error().is_some(), || {}, STATE_TIMEOUT).await;
+    if !done {
+        return Err(Stop::Discard("loader outcome not observed in time".into()));
+    }
+    if failing {
+        if n0.state().tables_loaded() {
+            return Err(Stop::Fail("the loader returned an error, yet the node reports its tables loaded".into()));
+        }
+        // unavailable, with the explanation, and it stays so
+        for round in 0..2 {
+            let r = get(&addr, "/readyz").await?;
+            let body: J = serde_json::from_slice(&r.body).unwrap_or(J::Null);
+            if r.status != 503 || body["ready"] != J::Bool(false) || !body["load_error"].as_str().map(|s| s.contains(failure_text)).unwrap_or(false) {
+                return Err(Stop::Fail(format!("/readyz after a failed load (round {round}): {} {}", r.status, r.text())));
+            }
+            for q in c.main.iter().chain(c.after.iter()) {
+                rep.labels.push(format!("failed:{}:{:?}:{:?}", q.kind, q.mode, q.format).to_lowercase());
+                let resp = post(&addr, &path_of(q), &q.sql).await?;
+                let text = error_text(&resp);
+                if resp.status != 503 || !text.contains("failed to load") || !text.contains(failure_text) {
+                    return Err(Stop::Fail(format!(
+                        "after a failed table load POST {} `{}` must answer 503 explaining the failure ({failure_text:?}); got {} {text:?}",
+                        path_of(q),
+                        q.sql,
+                        resp.status
+                    )));
+                }
+            }
+            let body = fragment_body(local).unwrap_or_else(|| "{}".into());
+            if let Ok(resp) = http_post_json(&addr, "/fragment", &body).await {
+                let text = error_text(&resp);
+                if resp.status != 503 || !text.contains(failure_text) {
+                    return Err(Stop::Fail(format!("after a failed table load /fragment must answer 503 explaining the failure; got {} {text:?}", resp.status)));
+                }
+            }
+            let h = get(&addr, "/healthz").await?;
+            if h.status != 200 {
+                return Err(Stop::Fail(format!("/healthz answers {} after a failed load (liveness is not readiness)", h.status)));
+            }
+        }
+        rep.labels.push("failed_load_stays_unavailable".into());
+        return Ok(());
+    }
+
+    // ---- membership: one probe round, then frozen
+    let up_peers_loaded = wait_until(
+        || peers.iter().all(|p| !matches!(p.kind, Peer::Up | Peer::UpThenKilled) || p.handle.as_ref().map(|h| h.state().tables_loaded()).unwrap_or(false)),
+        || {},
+        STATE_TIMEOUT,
+    )
+    .await;
+    if !up_peers_loaded {
+        return Err(Stop::Discard("a peer did not load in time".into()));
+    }
+    let probed: Vec<String> = peers.iter().filter(|p| p.kind != Peer::Unknown).map(|p| p.addr.clone()).collect();
+    if !probed.is_empty() {
+        n0.set_peers(probed.clone());
+        let want = |p: &PeerNode| if p.kind == Peer::Down { "down" } else { "up" };
+        let ok = wait_until(
+            || {
+                let v = view(n0);
+                peers.iter().filter(|p| p.kind != Peer::Unknown).all(|p| v.iter().any(|(a, st, _)| a == &p.addr && st == want(p)))
+            },
+            || n0.set_peers(probed.clone()),
+            STATE_TIMEOUT,
+        )
+        .await;
+        if !ok {
+            return Err(Stop::Discard("membership view did not reach the intended state".into()));
+        }
+    }
+    // the node's own first discovery pass (no wall-clock assumption: wait for it)
+    if !wait_until(|| n0.state().membership.resolved(), || {}, STATE_TIMEOUT).await {
+        return Err(Stop::Discard("discovery did not resolve in time".into()));
+    }
+    let unknown: Vec<String> = peers.iter().filter(|p| p.kind == Peer::Unknown).map(|p| p.addr.clone()).collect();
+    if !unknown.is_empty() {
+        // what a discovery pass does: the member is listed, nobody has probed it yet
+        let mut all = probed.clone();
+        all.extend(unknown);
+        n0.state().membership.set_members(all);
+    }
+
+    // ---- phase `main`
+    {
+        let w = World { n0, addr: addr.clone(), local, peers: peers.as_slice() };
+        let r = get(&addr, "/readyz").await?;
+        if r.status != 200 {
+            return Err(Stop::Fail(format!("/readyz after load and discovery: {} {}", r.status, r.text())));
+        }
+        for r in &c.main {
+            request_loaded(&w, r, rep, "main").await?;
+        }
+        if c.main_fragment {
+            fragment_loaded(&w, rep).await?;
+        }
+    }
+
+    // ---- kill a peer behind the prober's back, then phase `after`
+    let mut killed = false;
+    for p in peers.iter_mut() {
+        if p.kind == Peer::UpThenKilled {
+            if let Some(h) = p.handle.take() {
+                let _ = tokio::time::timeout(std::time::Duration::from_secs(30), h.shutdown()).await;
+                p.able = false;
+                killed = true;
+            }
+        }
+    }
+    if killed {
+        rep.labels.push("peer_killed_after_probe".into());
+        let w = World { n0, addr: addr.clone(), local, peers: peers.as_slice() };
+        for r in &c.after {
+            request_loaded(&w, r, rep, "after").await?;
+        }
+    }
+    Ok(())
+}
+
+pub struct FrontDoor;
+impl Check for FrontDoor {
+    type Case = C35Case;
+    fn name(&self) -> &'static str {
+        "front_door_history"
+    }
+    fn rule(&self) -> &'static str {
+        "the history contains an observed not-ready window (a 503 from /sql or /fragment before the load finished) and, later, a 200 answered distributed"
+    }
+    fn cases(&self, tier: Tier) -> u32 {
+        tier.pick(400, 6000)
+    }
+    fn workers(&self, _tier: Tier) -> usize {
+        4
+    }
+    fn max_shrink_iters(&self) -> u32 {
+        120
+    }
+    fn strategy(&self, tier: Tier) -> BoxedStrategy<C35Case> {
+        case_strategy(tier)
+    }
+    fn test(&self, c: &C35Case, obs: &mut Obs) -> Verdict {
+        let mut rep = Report::default();
+        let r = block_on(run_case(c, &mut rep));
+        for l in rep.labels.drain(..) {
+            obs.label(l);
+        }
+        if rep.window_observed {
+            obs.label("window_observed");
+        }
+        if rep.distributed_answer {
+            obs.label("distributed_answer");
+        }
+        obs.nontrivial(rep.window_observed && rep.distributed_answer);
+        match r {
+            Ok(()) => match rep.known {
+                Some((id, msg)) => Verdict::Known { id, msg },
+                None => Verdict::Pass,
+            },
+            Err(Stop::Discard(d)) => Verdict::Discard(d),
+            Err(Stop::Fail(m)) => Verdict::Fail(m),
+        }
+    }
+}
 
 pub fn property() -> Property {
-    Property { id: "C35", level: "exploration", assumptions: &[], checks: vec![] }
+    Property {
+        id: "C35",
+        level: "exploration",
+        assumptions: &[
+            "`plan_distributed` (the engine's own planner entry point) defines which shapes are exactly mergeable, as the property text says",
+            "membership is read from the node before and after every request; only an unchanged view is judged (a changed one discards the case)",
+            "CSV cannot distinguish NULL from the empty string (Arrow CSV writer renders NULL as an empty field): compared modulo that; the Arrow JSON writer omits NULL keys and renders NaN/infinity (which JSON cannot carry) as null",
+            "a distributed JSON/CSV body is compared with the Arrow body of the same request (the lossless rendering of the same engine result); distributed-vs-local row equality is C09's subject and only labelled here",
+            "a slow box can only turn a case into a Discard (every wait is bounded generously and a timeout is inconclusive)",
+        ],
+        checks: vec![Box::new(FrontDoor)],
+    }
 }
